@@ -266,35 +266,65 @@ def reboot (w : World) (i : Nat) (newPort : Nat) : World :=
   | some h => if h.box != 0 then w.remap i h.box ⟨h.wan.ip, newPort⟩ else w
   | none => w
 
-/-- P's mapping is renewed after the introducer learned P; P contacts the introducer again from the new mapping; then
-    the script -/
-def scriptIntroducedRemapped (c : Cfg) : World :=
-  let w := reboot (prehistory c) 2 41002
-  let w := if c.newStyle then w.ask 2 0 else w.walk 2 addrI
-  (introduce c w).walkAll 1
+/-- like `introductionOkW`, with the addresses read from the hosts of `w0` as they are NOW: during the introduction I's
+    puncture request, naming R's current WAN address, reaches P; P punctures (towards R's current WAN address unless
+    they share a box now); I's response, handing out P's current WAN address, reaches R -/
+def introductionOkDyn (c : Cfg) (w0 : World) : Bool :=
+  match w0.hosts[1]?, w0.hosts[2]? with
+  | some hR, some hP =>
+    let same := hR.box != 0 && hR.box == hP.box
+    let evs := newEvents w0 (introduce c)
+    evs.any (fun e => e.src == 0 && e.delivered 2 &&
+      (match e.msg with | .punctReq _ _ p => p.wan_walker_address == hR.wan | _ => false)) &&
+    evs.any (fun e => e.src == 2 && e.isPuncture && (same || e.dst == hR.wan)) &&
+    evs.any (fun e => e.src == 0 && e.delivered 1 &&
+      (match e.msg with | .introResp _ _ _ p _ => p.wan_introduction_address == hP.wan | _ => false))
+  | _, _ => false
 
-/-- R is known to the introducer (and was already handed P's addresses once, without walking); then R's mapping is
-    renewed; then the script: the response must reach, and the puncture must aim at, the new mapping -/
-def scriptRequesterRemapped (c : Cfg) : World :=
-  let w := reboot (introduce c (prehistory c)) 1 41001
-  (introduce c w).walkAll 1
+/-- introduction (addresses as of now), contact attempt and final peer tables of the script started in `w0` -/
+def allOkDyn (c : Cfg) (w0 : World) : Bool :=
+  introductionOkDyn c w0 && contactOkW c w0 && mutualDyn (scriptFrom c w0)
+
+def boxedP (c : Cfg) : Bool := (hostP c).box != 0
+def boxedR (c : Cfg) : Bool := (hostR c).box != 0
+
+/-- P's mapping is renewed after the introducer learned P; P contacts the introducer again from the new mapping -/
+def preIntroducedRemapped (c : Cfg) : World :=
+  let w := reboot (prehistory c) 2 41002
+  if c.newStyle then w.ask 2 0 else w.walk 2 addrI
+
+/-- R is known to the introducer (and was already handed P's addresses once, without walking); then R's mapping is renewed -/
+def preRequesterRemapped (c : Cfg) : World := reboot (introduce c (prehistory c)) 1 41001
 
 /-- R is known to the introducer and has a WAN estimate; then R ROAMS to another box with another public ip (LAN address
-    kept); then the script.  For placement `same` R leaves the box it shared with P: P's handed-out WAN ip equals R's OLD
-    estimate, so R must adopt the new estimate before classifying the introduction. -/
-def scriptRequesterRoams (c : Cfg) : World :=
-  let w := (introduce c (prehistory c)).remap 1 5 ⟨ipv4 8 8 8 8, 45001⟩
-  (introduce c w).walkAll 1
+    kept).  For placement `same` R leaves the box it shared with P: P's handed-out WAN ip equals R's OLD estimate, so R
+    must adopt the new estimate before classifying the introduction. -/
+def preRequesterRoams (c : Cfg) : World := (introduce c (prehistory c)).remap 1 5 ⟨ipv4 8 8 8 8, 45001⟩
 
 /-- churn at an introducer without peer limit (max_peers = -1): P's mapping is renewed, the introducer drops P
-    (Network.remove_peer), P walks to it again from the new mapping; then the script -/
-def scriptChurn (c : Cfg) : World :=
-  let w0 := match (setPref (world0 c) 0 [2]).nodes[0]? with
-    | some n => { setPref (world0 c) 0 [2] with nodes := (setPref (world0 c) 0 [2]).nodes.set 0 { n with maxPeers := -1 } }
-    | none => setPref (world0 c) 0 [2]
+    (Network.remove_peer), P walks to it again from the new mapping -/
+def preChurn (c : Cfg) : World :=
+  let base := setPref (world0 c) 0 [2]
+  let w0 := match base.nodes[0]? with
+    | some n => { base with nodes := base.nodes.set 0 { n with maxPeers := -1 } }
+    | none => base
   let w := (reboot (prehistoryOn c 0 w0) 2 41002).removePeerAt 0 2
-  let w := if c.newStyle then (w.walk 2 addrI).ask 2 0 else w.walk 2 addrI
-  (introduce c w).walkAll 1
+  if c.newStyle then (w.walk 2 addrI).ask 2 0 else w.walk 2 addrI
+
+/-! ## two more reachable states in which the unchanged code fails (known findings 3 and 4) -/
+
+/-- P shares R's box, is a peer of I in overlays 0 and 1, then roams to another public ip and is refreshed at I through
+    overlay 1 ONLY: I's record of P (per Network) is current, P's overlay-0 WAN estimate (per Community) still has the old
+    ip = R's ip.  Then the script in overlay 0. -/
+def staleEstimateWorld : World :=
+  let w := ((prehistory cfgSamePR).walk 2 addrI 1).remap 2 5 ⟨ipv4 8 8 8 8, 45002⟩
+  ((w.walk 2 addrI 1).walk 1 addrI).walkAll 1
+
+/-- P (other box) moves INTO R's box and gets another LAN address there; it refreshes at I, still advertising the cached
+    old `my_estimated_lan`.  Then the script. -/
+def staleLanWorld : World :=
+  let w := (prehistory cfgDiffPR).relan 2 1 ⟨ipv4 192 168 1 77, 8090⟩ ⟨ipv4 2 2 2 2, 40077⟩
+  ((w.walk 2 addrI).walk 1 addrI).walkAll 1
 
 /-! ## more candidates at the introducer -/
 
